@@ -252,29 +252,37 @@ def check_c14():
         names, maxtags, alpha, maxline, parts = ["a", "b", "ab", "ba", "aa"], 2, ["a", "b", "x"], 4, 14
     else:
         names, maxtags, alpha, maxline, parts = ["a", "b", "ab", "ba", "aa", "abb"], 3, ["a", "b", "x"], 4, 56
-    rs = run_parts("MCTagInject.tla", TAG_CFG.format(names=tla_set(names), maxtags=maxtags, alpha=tla_set(alpha),
-                                                      maxline=maxline), parts, "tag", wd, timeout=6 * 3600)
-    states = sum(r["states"] for r in rs)
+    # two bounded spaces: many names / two tags / longer lines, and few names / three tags / short lines (a third create
+    # while two tags are stored: equal, prefix-related in either direction, unrelated)
+    configs = [(names, maxtags, alpha, maxline, parts), (["a", "ab", "b"], 3, ["a", "b"], 3 if quick else 4, 8)]
+    states = 0
     tables = []
-    for r in rs:
-        if not r["ok"]:
-            for inv in r["violated"] or ["?"]:
-                rep.violation(f"spec:{inv}", f"TLC: {inv} violated in TagInject.tla", dict(out=r["out"][-6000:]))
-        tables += parse_emitted(r["out"], "TAGS")
-    if not tables:
-        raise ToolError("TLC emitted no tables for C14")
-    probe = "|".join(sorted(names))
-    # the probe is JoinS(SetToSeq(NameSet)): recover it from a case without stored tags
-    for t in tables:
-        if not t["setup"]:
-            probe = t["cases"][0]["probe"]
-            break
+    for ci, (nm, mt, al, ml, pt) in enumerate(configs):
+        rs = run_parts("MCTagInject.tla", TAG_CFG.format(names=tla_set(nm), maxtags=mt, alpha=tla_set(al), maxline=ml), pt, f"tag{ci}", wd, timeout=6 * 3600)
+        states += sum(r["states"] for r in rs)
+        tset = []
+        for r in rs:
+            if not r["ok"]:
+                for inv in r["violated"] or ["?"]:
+                    rep.violation(f"spec:{inv}", f"TLC: {inv} violated in TagInject.tla", dict(out=r["out"][-6000:]))
+            tset += parse_emitted(r["out"], "TAGS")
+        if not tset:
+            raise ToolError("TLC emitted no tables for C14")
+        # the probe line is JoinS(SetToSeq(NameSet)): recover it from a case without stored tags
+        probe = "|".join(sorted(nm))
+        for t in tset:
+            if not t["setup"]:
+                probe = t["cases"][0]["probe"]
+                break
+        for t in tset:
+            t["_probe"] = probe
+        tables += tset
     reqs, meta = [], []
     reps = 3 if quick else 2
     for t in tables:
         setup = [[s[0], s[1]] for s in t["setup"]]
         for c in t["cases"]:
-            steps = setup + [["inject", c["line"], c["le"]], ["has"], ["inject", probe, c["le"]], ["has"]]
+            steps = setup + [["inject", c["line"], c["le"]], ["has"], ["inject", t["_probe"], c["le"]], ["has"]]
             for _ in range(reps):
                 reqs.append(dict(op="tags", steps=steps))
                 meta.append((t, c))
